@@ -32,10 +32,10 @@ DEFAULTS = {"final_strategies": None, "reachability_strategies": None, "rewards"
 class Summary:
     def __init__(self, ctx):
         self.f = ctx.func(RUN)
-        self.sx = SymX(ctx, self.f, inline_depth=0).run()
+        self.sx = SymX(ctx, self.f, inline_depth=2).run()      # helper functions are judged by their content
         loops = [l for l in self.sx.loops.values() if l.kind == "for"]
         self.outer = [l for l in loops if l.source[0] == "mcall" and l.source[2] == "items"]
-        self.inner = [l for l in loops if l.source[0] == "list"]
+        self.inner = [l for l in loops if l.source[0] in ("list", "tup") and l.id in [i for o in self.outer for i in o.inner]]
         self.ok = len(self.outer) == 1 and len(self.inner) == 1 and self.inner[0].id in self.outer[0].inner
         if self.ok:
             self.Lo, self.Li = self.outer[0], self.inner[0]
@@ -62,7 +62,7 @@ def r1_keys(ctx, chk, rule="C12.1"):
         return None
     Lo, Li = s.Lo, s.Li
     modes = Li.source[1]
-    if modes != (C(True), C(False)) or not (modes[0][1] is True and modes[1][1] is False):
+    if len(modes) != 2 or not (is_const(modes[0]) and is_const(modes[1]) and modes[0][1] is True and modes[1][1] is False):
         chk.violation(rule, f.where(Li.node), "the mode loop runs over `%s`; specification: pruned first, then unpruned ([True, False])" % show(Li.source), expected="[True, False]",
                       found=show(Li.source), construct="run_games mode list")
         return None
@@ -232,11 +232,58 @@ def r3_isolation(ctx, chk, rec_t, rule="C12.3"):
 
 
 def _flag_var(s):
+    """The had-solution flag: a boolean carried through the mode loop whose update depends on whether the solve raised."""
     Li = s.Li
+    for v, init in Li.init.items():
+        if is_const(init) and isinstance(init[1], bool) and v in Li.update and mentions(Li.update[v], lambda x: x[0] == "raised"):
+            return v
     for v, init in Li.init.items():
         if init == TRUE or (is_const(init) and init[1] is True):
             return v
     return None
+
+
+def _tid(s):
+    tries = getattr(s.sx, "tries", {})
+    return next(iter(tries)) if len(tries) == 1 else None
+
+
+def scenario(s, t, flag_value, raised):
+    """Specialise a term of the mode loop body to: flag variable == flag_value at iteration start, solve raised or not."""
+    from ..symx import assume_deep
+    flag = _flag_var(s)
+    tid = _tid(s)
+    acc = ("acc", s.Li.id, flag)
+    out = t
+    out = subst(out, lambda x: C(flag_value) if x == acc else None)
+    if tid is not None and raised is not None:
+        out = assume_deep(out, ("raised", tid), raised)
+    # re-simplify conditionals that became constant
+    for _ in range(3):
+        out = subst(out, lambda x: (x[2] if x[1] == TRUE or (is_const(x[1]) and x[1][1] is True) else x[3]) if x[0] == "ite" and is_const(x[1]) else None)
+    return out
+
+
+def flag_states(s):
+    """(good, bad): value of the flag before any failure, and after a raising solve."""
+    flag = _flag_var(s)
+    good = s.Li.init[flag][1]
+    after = scenario(s, s.Li.update[flag], good, True)
+    bad = after[1] if is_const(after) and isinstance(after[1], bool) else None
+    return good, bad
+
+
+def _msg_term(s):
+    Li = s.Li
+    u = Li.update.get(s.res_var)
+    if u is not None and u[0] == "setitem" and u[3][0] == "dict":
+        rec = {k[1]: v for k, v in u[3][1] if is_const(k) and isinstance(k[1], str)}
+        return rec.get("msg")
+    return None
+
+
+def _solve_calls(t):
+    return [x for x in C02._sub(t) if x[0] == "mcall" and x[2] == "solve"]
 
 
 def r4_failure_protocol(ctx, chk, rule="C12.4"):
@@ -247,59 +294,68 @@ def r4_failure_protocol(ctx, chk, rule="C12.4"):
         return
     Lo, Li = s.Lo, s.Li
     flag = _flag_var(s)
-    if flag is None:
-        chk.violation(rule, f.where(Lo.node), "no had-solution flag is set to True per game before the mode loop", expected="flag = True inside the game loop, outside the mode loop",
-                      found="none", construct="run_games flag missing")
+    tid = _tid(s)
+    if flag is None or tid is None:
+        chk.undecided(rule, f.where(Lo.node), "had-solution flag / single try statement not identified (flag=%s, tries=%d)" % (flag, len(getattr(s.sx, "tries", {}))))
         return
-    # flag reset per game: Li.init[flag] == True is assigned in the outer body (not before the outer loop)
-    if Lo.init.get(flag, UNBOUND) not in (UNBOUND,) and Lo.update.get(flag) is not None and not mentions(Lo.update[flag], lambda x: x[0] == "res"):
-        pass
+    good, bad = flag_states(s)
+    if bad is None or bad == good:
+        chk.violation(rule, f.where(Li.node), "after a raising solve the flag `%s` is `%s` (unchanged / not a constant): the unpruned entry is not marked 'not solved'" % (
+            flag, show(scenario(s, Li.update[flag], good, True))), expected="flag flips when the solve raised", found=show(Li.update[flag])[:140], construct="run_games flag update")
+        return
+    # flag re-established per game: its initial value for the mode loop is a constant assigned inside the game loop
     assigned_in_outer = any(isinstance(n, ast.Assign) and any(isinstance(t, ast.Name) and t.id == flag for t in n.targets) for n in Lo.node.body)
     if not assigned_in_outer:
         chk.violation(rule, f.where(Lo.node), "the flag `%s` is not re-set for each game: after one failing game every later game is reported 'not solved'" % flag,
-                      expected="%s = True at the start of every game" % flag, found="set outside the game loop", construct="run_games flag hoisted")
+                      expected="%s = %r at the start of every game" % (flag, good), found="set outside the game loop", construct="run_games flag hoisted")
     else:
-        chk.ok(rule, f.where(Lo.node), "`%s = True` is re-established for every game, outside the mode loop" % flag)
-    accf = ("truthy", ("acc", Li.id, flag))
+        chk.ok(rule, f.where(Lo.node), "`%s = %r` is re-established for every game, outside the mode loop" % (flag, good))
     uf = Li.update[flag]
-    tries = getattr(s.sx, "tries", {})
-    if len(tries) != 1:
-        chk.undecided(rule, f.where(), "%d try statements in run_games" % len(tries))
-        return
-    tid = next(iter(tries))
-    raised = ("raised", tid)
-    want_flag = simp(("ite", accf, simp(("ite", raised, FALSE, ("acc", Li.id, flag))), ("acc", Li.id, flag)))
-    if uf == want_flag:
-        chk.ok(rule, f.where(Li.node), "the flag is cleared exactly when the solve of this mode raised")
+    stays_good = scenario(s, uf, good, False)
+    stays_bad_1, stays_bad_2 = scenario(s, uf, bad, False), scenario(s, uf, bad, True)
+    if stays_good == C(good) and stays_bad_1 == C(bad) and stays_bad_2 == C(bad):
+        chk.ok(rule, f.where(Li.node), "flag transitions: %r --solve raised--> %r; %r otherwise unchanged; %r is absorbing within a game" % (good, bad, good, bad))
     else:
-        chk.violation(rule, f.where(Li.node), "flag update is `%s`; specification: cleared iff the solve raised" % show(uf)[:140], expected=show(want_flag), found=show(uf)[:160],
-                      construct="run_games flag update")
-    # solve only under the flag, in the try; message protocol
-    msg = Li.update.get("msg")
+        chk.violation(rule, f.where(Li.node), "flag transitions are not (ok -> ok when solved, ok -> failed when raised, failed stays failed): %s / %s / %s" % (
+            show(stays_good), show(stays_bad_1), show(stays_bad_2)), expected="cleared iff the solve raised", found=show(uf)[:160], construct="run_games flag update")
+    msg = _msg_term(s)
     if msg is None:
-        msgs = [v for v in Li.update if "msg" in v or "message" in v]
-        msg = Li.update.get(msgs[0]) if msgs else None
-    if msg is None or msg[0] != "ite" or msg[1] != accf:
-        chk.violation(rule, f.where(Li.node), "the entry's message is not chosen by the had-solution flag (`%s`)" % (show(msg)[:120] if msg else None), expected="solved/error if flag else 'not solved'",
-                      found=show(msg)[:160] if msg else "none", construct="run_games message protocol")
+        chk.undecided(rule, f.where(Li.node), "message of the entry not found")
         return
-    with_flag, without = msg[2], msg[3]
-    ok_msg = with_flag[0] == "ite" and with_flag[1] == raised and any(t == ("exc", tid) for t in C02._sub(with_flag[2])) and is_const(with_flag[3]) and is_const(without)
-    if ok_msg and with_flag[3] != without:
-        chk.ok(rule, f.where(Li.node), "message: %r if solved, the exception text if the solve raised, %r if the pruned run had failed" % (with_flag[3][1], without[1]))
+    mA, mB, mC = scenario(s, msg, good, False), scenario(s, msg, good, True), scenario(s, msg, bad, None)
+    okA = is_const(mA) and isinstance(mA[1], str)
+    okB = any(t == ("exc", tid) for t in C02._sub(mB))
+    okC = is_const(mC) and isinstance(mC[1], str)
+    if okA and okB and okC and mA != mC:
+        chk.ok(rule, f.where(Li.node), "message: %r if solved, the exception text if the solve raised, %r if the pruned run had failed" % (mA[1], mC[1]))
     else:
-        chk.violation(rule, f.where(Li.node), "message protocol `%s` does not embed the exception text / distinguish the three outcomes" % show(msg)[:160], expected="three distinct messages",
-                      found=show(msg)[:200], construct="run_games message protocol")
-    # solve() is not evaluated when the flag is false: results are defaults then
-    for var, u in Li.update.items():
-        if any(t[0] == "mcall" and t[2] == "solve" for t in C02._sub(u)) and var not in (s.res_var,):
-            if not (u[0] == "ite" and u[1] == accf and not any(t[0] == "mcall" and t[2] == "solve" for t in C02._sub(u[3]))):
-                chk.violation(rule, f.where(Li.node), "`%s` takes a value from solve() even when the pruned run had failed" % var, expected="solve() only under the flag", found=show(u)[:140],
-                              construct="run_games solve without flag")
-                break
-    else:
-        chk.ok(rule, f.where(Li.node), "solve() is evaluated only while the had-solution flag holds")
-    C09.r5_batch_runner(ctx, chk, rule + ":C09.5")
+        chk.violation(rule, f.where(Li.node), "message protocol: solved -> `%s`, raised -> `%s`, pruned run failed -> `%s`; specification: a constant, a text embedding the exception, a different constant" % (
+            show(mA)[:60], show(mB)[:80], show(mC)[:60]), expected="three distinguishable messages, the error one embedding the exception text", found=show(msg)[:200],
+            construct="run_games message protocol")
+    # solve() is not evaluated when the flag is in its failed state
+    u = Li.update.get(s.res_var)
+    rec_t = u[3] if u is not None and u[0] == "setitem" else None
+    if rec_t is not None:
+        skipped = scenario(s, rec_t, bad, None)
+        if _solve_calls(skipped):
+            chk.violation(rule, f.where(Li.node), "an entry takes a value from solve() even when the pruned run had failed", expected="solve() only while the flag holds",
+                          found=show(_solve_calls(skipped)[0])[:100], construct="run_games solve without flag")
+        else:
+            chk.ok(rule, f.where(Li.node), "solve() is evaluated only while the had-solution flag holds")
+    _batch_runner(ctx, chk, rule + ":C09.5")
+
+
+def _batch_runner(ctx, chk, rule):
+    """C09.5 on run_games or on the helper that contains the solve() call."""
+    f = ctx.func(RUN)
+    if C02.calls_of(f, "solve"):
+        C09.r5_batch_runner(ctx, chk, rule)
+        return
+    for g in ctx.cg.reachable([f]):
+        if g is not f and g.mod is f.mod and C02.calls_of(g, "solve"):
+            C09.r5_batch_runner(ctx, chk, rule, holder=g)
+            return
+    chk.undecided(rule, f.where(), "no solve() call reachable from run_games inside conditionalrewards.py")
 
 
 def r5_record(ctx, chk, rec_t, rule="C12.5"):
@@ -309,42 +365,42 @@ def r5_record(ctx, chk, rec_t, rule="C12.5"):
         chk.undecided(rule, f.where(), "record term not a dict display")
         return
     Li = s.Li
-    tries = getattr(s.sx, "tries", {})
-    tid = next(iter(tries)) if tries else None
     rec = {k[1]: v for k, v in rec_t[1] if is_const(k) and isinstance(k[1], str)}
     splats = [v for k, v in rec_t[1] if not (is_const(k) and isinstance(k[1], str))]
     if splats:
         chk.undecided(rule, f.where(Li.node), "the entry is built with a `**` splat of `%s`: its keys are not statically known" % show(splats[0])[:80])
         return
     flag = _flag_var(s)
-    accf = ("truthy", ("acc", Li.id, flag)) if flag else None
+    tid = _tid(s)
+    if flag is None or tid is None:
+        chk.undecided(rule, f.where(Li.node), "flag / try not identified")
+        return
+    good, bad = flag_states(s)
     for key, slot in SLOT_OF.items():
         if key not in rec:
             chk.violation(rule, f.where(Li.node), "the entry has no key %r" % key, expected=key, found=sorted(rec), construct="run_games record key %s" % key)
             continue
         v = rec[key]
-        # v = ite(flag, ite(raised, default, solve()[slot]), default)
-        solved = [t for t in C02._sub(v) if t[0] == "idx" and t[1][0] == "mcall" and t[1][2] == "solve"]
-        defaults = [t for t in C02._sub(v) if is_const(t)]
-        if len(solved) != 1:
-            chk.violation(rule, f.where(Li.node), "record[%r] = `%s` does not come from one slot of solve()" % (key, show(v)[:100]), expected="solve()[%d]" % slot, found=show(v)[:140],
+        vA, vB, vC = scenario(s, v, good, False), scenario(s, v, good, True), scenario(s, v, bad if bad is not None else (not good), None)
+        want_d = DEFAULTS[key]
+        okA = vA[0] == "idx" and vA[1][0] == "mcall" and vA[1][2] == "solve"
+        if not okA:
+            chk.violation(rule, f.where(Li.node), "record[%r] when solved is `%s`, not a slot of solve()'s result" % (key, show(vA)[:100]), expected="solve()[%d]" % slot, found=show(vA)[:140],
                           construct="run_games record %s source" % key)
             continue
-        got = solved[0][2]
-        if got != C(slot):
-            other = [k2 for k2, s2 in SLOT_OF.items() if C(s2) == got]
-            chk.violation(rule, f.where(Li.node), "record[%r] is slot %s of solve()'s result (%s), not slot %d: two outputs are exchanged in the report" % (key, show(got), other[0] if other else "?", slot),
-                          expected="solve()[%d]" % slot, found="solve()[%s]" % show(got), construct="run_games record %s slot" % key)
+        if vA[2] != C(slot):
+            other = [k2 for k2, s2 in SLOT_OF.items() if C(s2) == vA[2]]
+            chk.violation(rule, f.where(Li.node), "record[%r] is slot %s of solve()'s result (%s), not slot %d: two outputs are exchanged in the report" % (key, show(vA[2]), other[0] if other else "?", slot),
+                          expected="solve()[%d]" % slot, found="solve()[%s]" % show(vA[2]), construct="run_games record %s slot" % key)
             continue
-        # defaults when not solved
-        want_d = C(DEFAULTS[key])
-        shape_ok = v[0] == "ite" and v[1] == accf and v[3] == want_d and v[2][0] == "ite" and v[2][1] == ("raised", tid) and v[2][2] == want_d and v[2][3] == solved[0] \
-            and (v[3][1] is DEFAULTS[key] or v[3][1] == DEFAULTS[key] and type(v[3][1]) is type(DEFAULTS[key]))
-        if shape_ok:
-            chk.ok(rule, f.where(Li.node), "record[%r] = solve()[%d] if solved else %r" % (key, slot, DEFAULTS[key]))
+
+        def is_default(t):
+            return is_const(t) and t[1] == want_d and type(t[1]) is type(want_d)
+        if is_default(vB) and is_default(vC):
+            chk.ok(rule, f.where(Li.node), "record[%r] = solve()[%d] if solved else %r" % (key, slot, want_d))
         else:
-            chk.violation(rule, f.where(Li.node), "record[%r] = `%s`; specification: solve()[%d] when solved, %r otherwise" % (key, show(v)[:120], slot, DEFAULTS[key]),
-                          expected="solve()[%d] / %r" % (slot, DEFAULTS[key]), found=show(v)[:160], construct="run_games record %s default" % key)
+            chk.violation(rule, f.where(Li.node), "record[%r] is `%s` when the solve raised and `%s` when the pruned run had failed; specification: %r in both cases" % (
+                key, show(vB)[:60], show(vC)[:60], want_d), expected=repr(want_d), found="%s / %s" % (show(vB)[:60], show(vC)[:60]), construct="run_games record %s default" % key)
     # counts
     game_obj = [t for t in C02._sub(rec_t) if t[0] == "call" and t[1] == "StochasticGame"]
     go = game_obj[0] if game_obj else None
